@@ -118,6 +118,28 @@ func genInvocation(t *rapid.T, names []string, book, log []Block) Invocation {
 	return iv
 }
 
+// genExtraLocals draws a subset of the presentation flags of the command (flag combinations).
+func genExtraLocals(t *rapid.T, shape string) []string {
+	var pool []string
+	switch {
+	case strings.HasPrefix(shape, "reg"):
+		pool = []string{"--totals-only", "--no-totals", "--shorten", "--csv", "--no-color", "-g", "--use-old-reg-reporter", "--internal-template-name=left-aligned"}
+	case strings.HasPrefix(shape, "bal"):
+		pool = []string{"-c", "--collapse-last"}
+	case strings.HasPrefix(shape, "report quantity"), strings.HasPrefix(shape, "report element-total"):
+		pool = []string{"--desc"}
+	default:
+		return nil
+	}
+	var out []string
+	for _, f := range pool {
+		if rapid.IntRange(0, 2).Draw(t, "flag"+f) == 2 {
+			out = append(out, f)
+		}
+	}
+	return out
+}
+
 // ---------------------------------------------------------------- C17
 
 // CaseC17 : a report that cannot be written completely yields a non-zero exit.
